@@ -5,6 +5,8 @@ import itertools
 import math
 from fractions import Fraction
 
+from . import c02_history as H
+from . import c02_options as O
 from . import c02_sites as S
 from . import c02_util as U
 from .common import add_failure, bump, new_outcome, unrat
@@ -1015,7 +1017,13 @@ def spec_check(ctx, budget):
         "site-class HMM likelihood functions vs the sum over ALL bin paths (harness's own exact evaluation of the definition) and vs "
         "the sites_independent=True value at bin_switch=1; size scaling: 10-12 taxa x 42k-90k random columns (> 2^15 and > 2^16 "
         "patterns below one child) and 120k-200k columns with pattern counts > 2^16 vs plain vectorised float64 pruning over all "
-        "columns; non-trivial = problems with >= 2 unique columns"
+        "columns; constructor option grid: di-/tri-nucleotide and codon models built from the classes with every mprob_model "
+        "(monomer / monomers / conditional / tuple) x complete alphabets and alphabets with excluded words: all possible columns sum to "
+        "one, root probabilities and P rows sum to one, lnL vs exact pruning with Q and root distribution built by the harness from the "
+        "definition of the motif-probability model; histories on one function object (plain / bins / HMM / multi-locus): ~35 read-only "
+        "calls, half of them with a bad scope so that they raise, lnL and full-length likelihoods unchanged after each, equal to a fresh "
+        "function from get_param_rules(); successful ancestral reconstructions vs the restricted sum-product; "
+        "non-trivial = problems with >= 2 unique columns"
     )
     rng = ctx.subrng(f"spec{budget}")
     U.BIG_BINS = ctx.thorough
@@ -1056,6 +1064,9 @@ def spec_check(ctx, budget):
     _scope_problems(ctx, rng, out, 8 * budget)
     # several loci; hidden Markov chain over site classes (sites_independent=False)
     S.spec_stream(ctx, out, ctx.subrng(f"sites-spec{budget}"), budget)
+    # constructor option grid (mprob_model x word alphabets with excluded words); histories on one function object
+    O.spec_stream(ctx, out, ctx.subrng(f"options{budget}"), budget)
+    H.spec_stream(ctx, out, ctx.subrng(f"history{budget}"), budget)
     if budget in (1, 10):
         # size scaling (not repeated in the wider search after a failure: the stream does not depend on the budget)
         lrng = ctx.subrng("large")
@@ -1088,7 +1099,7 @@ def _recheck(ctx, inp):
     out = new_outcome()
     spec = {k: v for k, v in inp.items() if k not in ("column", "check", "edge", "bin", "pairs")}
     check = inp.get("check", "lh")
-    if S.recheck(ctx, inp, out):
+    if S.recheck(ctx, inp, out) or O.recheck(ctx, inp, out) or H.recheck(ctx, inp, out):
         pass
     elif check == "sum1":
         _check_sum_one(spec, None, out)
